@@ -74,6 +74,14 @@ func genCase(t *rapid.T) aggh.XCase {
 		c.Flows[i].CorrD.EgrAct = uint8(rapid.IntRange(0, 1).Draw(t, "egr_d"))
 		c.Flows[i].CorrS.IngAct = uint8(rapid.IntRange(0, 2).Draw(t, "ing_s"))
 		c.Flows[i].CorrD.IngAct = uint8(rapid.IntRange(0, 2).Draw(t, "ing_d"))
+		// one node in eight sees the flow denied while the other node, which cannot know, reports an
+		// ordinary flow: whichever record comes first, the flow is ready once the denying node reported
+		switch rapid.IntRange(0, 15).Draw(t, "denied_by") {
+		case 0:
+			c.Flows[i].CorrD.IngAct = 3 // rejected at ingress, reported by the destination node
+		case 1:
+			c.Flows[i].CorrS.EgrAct = uint8(rapid.IntRange(2, 3).Draw(t, "egr_deny")) // denied at egress, reported by the source node
+		}
 	}
 	// exporters of different versions: one node's template lacks some of the elements that describe
 	// the other end
@@ -126,7 +134,7 @@ func TestC07(t *testing.T) {
 		st := &aggh.XStats{}
 		f := aggh.RunX(c, st)
 		var cl []string
-		for k, b := range map[string]bool{"correlated_flow_exported": st.Correlated, "retry_round_then_peer": st.RetryThenPeer, "uncorrelated_dropped": st.DroppedUncorrelated, "both_arrival_orders": st.BothOrders, "failing_callback": st.FailingCallback, "nodes_use_different_element_order": c.LayoutS != c.LayoutD, "correlating_record_refused": st.IncompleteCorrelating, "max_retries_setting_changed": c.MaxRetries != nil && *c.MaxRetries != 2, "process_without_aggregate_elements": c.NoAggregation, "exporters_with_different_templates": len(c.Flows[0].OmitS)+len(c.Flows[0].OmitD)+len(c.Flows[1].OmitS)+len(c.Flows[1].OmitD) > 0} {
+		for k, b := range map[string]bool{"correlated_flow_exported": st.Correlated, "retry_round_then_peer": st.RetryThenPeer, "uncorrelated_dropped": st.DroppedUncorrelated, "both_arrival_orders": st.BothOrders, "failing_callback": st.FailingCallback, "nodes_use_different_element_order": c.LayoutS != c.LayoutD, "correlating_record_refused": st.IncompleteCorrelating, "max_retries_setting_changed": c.MaxRetries != nil && *c.MaxRetries != 2, "process_without_aggregate_elements": c.NoAggregation, "one_node_reports_the_flow_denied": c.Flows[0].Denied() || c.Flows[1].Denied(), "exporters_with_different_templates": len(c.Flows[0].OmitS)+len(c.Flows[0].OmitD)+len(c.Flows[1].OmitS)+len(c.Flows[1].OmitD) > 0} {
 			if b {
 				cl = append(cl, k)
 			}
